@@ -4,6 +4,7 @@ use crate::outcome::Outcome;
 use crate::Ctx;
 
 pub mod c01;
+pub mod extreme;
 pub mod c02;
 pub mod c03;
 pub mod c04;
